@@ -28,6 +28,9 @@ type s2Action struct {
 	Idx int    `json:"idx,omitempty"` // which pending loader invocation to release (modulo)
 	Out string `json:"out,omitempty"`
 	Sel int    `json:"sel,omitempty"`
+	// Done: the call is made with a context that is already cancelled (the cache hands the context to the loader and
+	// otherwise ignores it: nothing else may change)
+	Done bool `json:"ctx_done,omitempty"`
 }
 
 type s2Case struct {
@@ -179,6 +182,19 @@ func (l s2Loader) invoke(kind string, keys, olds []int) (map[int]int, int, error
 
 var errLoader2 = errors.New("verif: loader failed")
 
+var s2DoneCtx = func() context.Context {
+	ctx, cancel := context.WithCancel(context.Background())
+	cancel()
+	return ctx
+}()
+
+func ctxOf(a *s2Action) context.Context {
+	if a.Done {
+		return s2DoneCtx
+	}
+	return context.Background()
+}
+
 func (l s2Loader) Load(ctx context.Context, k int) (int, error) {
 	_, v, err := l.invoke("load", []int{k}, nil)
 	return v, err
@@ -225,7 +241,10 @@ func genS2Case(t *rapid.T, withWrites bool) s2Case {
 		a := s2Action{Op: ops[rapid.IntRange(0, len(ops)-1).Draw(t, "op")]}
 		a.K = rapid.IntRange(0, c.Keys-1).Draw(t, "k")
 		switch a.Op {
+		case "get", "refresh":
+			a.Done = rapid.IntRange(0, 5).Draw(t, "ctxdone") == 0
 		case "bulkget", "bulkrefresh":
+			a.Done = rapid.IntRange(0, 5).Draw(t, "ctxdone") == 0
 			n := rapid.IntRange(1, 4).Draw(t, "n")
 			for i := 0; i < n; i++ {
 				a.Ks = append(a.Ks, rapid.IntRange(0, c.Keys-1).Draw(t, "bk"))
@@ -468,12 +487,12 @@ func runS2(c s2Case, prop string, perStep func(w *s2World, cache *otter.Cache[in
 				a := &c.Actions[i]
 				switch a.Op {
 				case "get":
-					start("get", []int{a.K}, func(cl *s2Call) { cl.val, cl.err = cache.Get(context.Background(), a.K, ld) })
+					start("get", []int{a.K}, func(cl *s2Call) { cl.val, cl.err = cache.Get(ctxOf(a), a.K, ld) })
 				case "bulkget":
-					start("bulkget", a.Ks, func(cl *s2Call) { cl.res, cl.err = cache.BulkGet(context.Background(), a.Ks, ld) })
+					start("bulkget", a.Ks, func(cl *s2Call) { cl.res, cl.err = cache.BulkGet(ctxOf(a), a.Ks, ld) })
 				case "refresh":
 					start("refresh", []int{a.K}, func(cl *s2Call) {
-						ch := cache.Refresh(context.Background(), a.K, ld)
+						ch := cache.Refresh(ctxOf(a), a.K, ld)
 						cl.ch1, cl.nilChan = ch, ch == nil
 						if ch != nil {
 							// the result (if any: a panicking reload never delivers one) is collected on the side
@@ -492,7 +511,7 @@ func runS2(c s2Case, prop string, perStep func(w *s2World, cache *otter.Cache[in
 					})
 				case "bulkrefresh":
 					start("bulkrefresh", a.Ks, func(cl *s2Call) {
-						ch := cache.BulkRefresh(context.Background(), a.Ks, ld)
+						ch := cache.BulkRefresh(ctxOf(a), a.Ks, ld)
 						cl.chN, cl.nilChan = ch, ch == nil
 						if ch != nil {
 							go func() {
